@@ -840,6 +840,24 @@ class HeapExec(DynExec):
                 return [(s, fresh_str('group'))]
             m = self.new_obj(st, 'match', {'__methods__': {'groups': groups, 'group': group}})
             return [(s_none, None), (st, m)]
+        if f is _re.compile:
+            # re.compile(pattern, flags) -> a pattern object; pattern.search(text) is None or a match object, decided by
+            # the uninterpreted predicate RE_SEARCH(pattern, flags, text)  (CPython's re engine is trusted, pure)
+            from .models import lib
+            lib('re.compile(p, flags).search(text): pure, uninterpreted predicate RE_SEARCH(p, flags, text)')
+            pat = args[0]
+            flags = args[1] if len(args) > 1 else kw.get('flags', 0)
+            zf = self.z_int(SInt(z3.IntVal(int(flags)))) if not isinstance(flags, Sym) else self.z_int(flags)
+            zp = self.z_str(pat)
+            RS = z3.Function('RE_SEARCH', z3.StringSort(), z3.IntSort(), z3.StringSort(), z3.BoolSort())
+
+            def search(ex_, self_, a, k, s):
+                found = RS(zp, zf, ex_.z_str(a[0]))
+                out = []
+                for s1, b in ex_.decide(s, found):
+                    out.append((s1, ex_.new_obj(s1, 'match', {}) if b else None))
+                return out
+            return [(st, self.new_obj(st, 'pattern', {'__methods__': {'search': search}}))]
         if f is setattr:
             o, name, val = args
             if isinstance(name, Sym):
